@@ -18,7 +18,7 @@ def to_term(case, ob):
     env = pv.env_term(110, ob["orc"], ob["re"])
     o = (pv.vres_term(ob["c"]), pv.opt(None if ob["p"] is None else pv.vres_term(ob["p"])),
          pv.opt(None if ob["alts"] is None else [pv.vres_term(a) for a in ob["alts"]]))
-    return (env, pv.desc_term(case["d"]), pv.val_term(case["v"]), o)
+    return (env, pv.desc_term(ob.get("d", case["d"])), pv.val_term(case["v"]), o)
 
 
 def _untag(j):
@@ -43,8 +43,17 @@ def key_fn(case, ob, clause):
         first_decl = next((a for a in ob["alts"] if a[0] != "Reject"), ["Reject"])
         if first_eff == c and first_decl != c and any(not pv.is_fast(x) for x in d[1]):
             return "declaration-order/fast-alternative-before-earlier-slow-one"               # F5
+    def flat(x):        # the alternatives of a compound through nested compounds
+        out = []
+        for a in x[1]:
+            out += flat(a) if a[0] == "DCompound" else [a]
+        return out
+    if d[0] == "DCompound" and clause in (2, 4) and c[0] == "Accept" and p and p[0] == "Accept" and p[1] == ["PNone"] \
+            and any(a[0] == "DAdapt" and a[2] == 2 for a in flat(d)) and ob.get("d") is not None \
+            and any(a[0] == "DAdapt" and a[2] == 2 and a[4] == c[1] for a in flat(ob["d"])):
+        return "same-value-and-type/adapt-default-inside-compound-returns-the-compound-default"   # F21
     if clause == 1 and d[0] == "DCompound" and c[0] == "Accept" and p == ["Propagate", "EOtherError"] and \
-            v[0] == "PIndexObj" and any(a[0] == "DCast" and a[1] in ("CTInt", "CTFloat", "CTComplex") for a in d[1]):
+            v[0] == "PIndexObj" and any(a[0] == "DCast" and a[1] in ("CTInt", "CTFloat", "CTComplex") for a in flat(d)):
         return "accept-set/compound-cast-swallows-own-protocol-exception-in-c-only"          # residue of F17
     insts = [d] if d[0] == "DInstance" else ([a for a in d[1] if a[0] == "DInstance"] if d[0] == "DCompound" else [])
     if clause in (1, 3) and any(not a[2] and a[1] in (0, 1) for a in insts) and v == ["PNone"] and c == ["Accept", ["PNone"]] and p == ["Reject"]:
@@ -83,6 +92,11 @@ def corpus():
     cs.append((["DCompound", [["DCast", "CTFloat"], ["DInt"]]], ["PInt", 10 ** 400]))                      # F17
     cs.append((["DCompound", [["DCast", "CTInt"], ["DFloat"]]], ["PFloat", pv.PINF]))
     cs.append((["DCompound", [["DCast", "CTInt"], ["DInstance", 20, False, False]]], ["PIndexObj", ["Raises", "EOtherError"]]))
+    f21 = ["DCompound", [["DAdapt", 100, 2, False, ["PNone"]], ["DCast", "CTStr"]]]                         # F21
+    for v in (["PInt", 5], ["PObj", 101, 1], ["PObj", 102, 1], ["PNone"], S("a")):
+        cs.append((f21, v))
+    cs.append((["DCompound", [["DInt"], ["DCompound", [["DAdapt", 100, 2, False, ["PNone"]], ["DCast", "CTStr"]]]]], ["PFloat", F(0.5)]))
+    cs.append((["DCompound", [["DAdapt", 100, 2, True, ["PNone"]], ["DInt"]]], S("a")))
     two_enums = ["DCompound", [["DEnum", [S("auto"), S("fill")]], ["DFloat"], ["DEnum", [["PInt", 1], ["PInt", 2], ["PInt", 5]]]]]
     for v in (["PInt", 1], ["PInt", 5], S("fill"), ["PFloat", F(2.0)], ["PBool", True]):                  # enum, converter, enum
         cs.append((two_enums, v))
@@ -109,25 +123,25 @@ def corpus():
 def gen_cases(ctx, rnd):
     quick = ctx.tier == "quick"
     cases = corpus()
-    leaves = pv.fast_leaves(True) + [["DModule"], ["DTuple", []]]
+    leaves = pv.fast_leaves(True) + pv.adapts((2,)) + [["DModule"], ["DTuple", []]]
     # construction variants (Enum(a, b) / Enum(dflt, [..]) / Enum((..)), Range with one int bound, Instance("Name"))
     leaves = leaves + [w for d in leaves for w in pv.variants(d)]
     # every fast leaf configuration x the whole value lattice
     atoms = pv.ATOMS
     for d in leaves:
-        vals = atoms if not quick else rnd.sample(atoms, 30)
+        vals = atoms if not quick else rnd.sample(atoms, 48)
         for v in vals:
             cases.append(dict(d=d, v=v))
     # the switch copy of every fast leaf (validate_trait_complex) against the lattice: Either(leaf, Enum("zz"))
     for d in pv.fast_leaves(True):
-        vals = atoms if not quick else [["PNone"]] + rnd.sample(atoms, 20)
+        vals = atoms if not quick else [["PNone"]] + rnd.sample(atoms, 32)
         for v in vals:
             cases.append(dict(d=["DCompound", [d, ["DEnum", [pv.S("zz")]]]], v=v))
     # float ranges: every bound/mask combination against every float-like atom and the bounds themselves
     floaty = [a for a in atoms if a[0] in ("PFloat", "PFloatSub", "PNpFloat", "PFloatObj", "PInt", "PBool", "PNpInt",
                                            "PIndexObj")]
     for d in pv.float_ranges():
-        for v in (floaty if not quick else rnd.sample(floaty, 12)):
+        for v in (floaty if not quick else rnd.sample(floaty, 18)):
             cases.append(dict(d=d, v=v))
             cases.append(dict(d=["DCompound", [d, ["DStr"]]], v=v))
     # fixed compounds and tuples
@@ -161,11 +175,11 @@ def gen_cases(ctx, rnd):
     ]
     tv = pv.tuple_values(rnd, 25 if quick else 250, 2)
     for d in fixed:
-        vals = (atoms if not quick else rnd.sample(atoms, 30)) + (tv if d[0] == "DTuple" else tv[:8])
+        vals = (atoms if not quick else rnd.sample(atoms, 42)) + (tv if d[0] == "DTuple" else tv[:8])
         for v in vals:
             cases.append(dict(d=d, v=v))
     # random nestings (depth <= 3)
-    n_cfg, n_val = (30, 18) if quick else (450, 40)
+    n_cfg, n_val = (50, 24) if quick else (900, 50)
     for _ in range(n_cfg):
         d = pv.gen_desc(rnd, 3)
         if d[0] not in ("DTuple", "DCompound"):
